@@ -1007,7 +1007,11 @@ fn history(em: &mut Em, rng: &mut Rng, nmax: usize, maxlen: usize) {
                     update_truth(&mut truth, &s.op, &res, s.pick);
                     cur = res.outs[s.pick].clone();
                     cur_lt = res.lt;
-                    tags_ok(ctx, &class, s.op.name(), &cur, &truth);
+                    // cumulative check against the original tags: reported at the first step that breaks
+                    // it, not again under the class of every later step
+                    if ctx.fails.is_empty() {
+                        tags_ok(ctx, &class, s.op.name(), &cur, &truth);
+                    }
                     let wf = (cur.w.is_empty() || cur.w.len() == cur.n) && (cur.fnames.is_empty() || cur.fnames.len() == cur.p) && (cur.tnames.is_empty() || cur.tnames.len() == cur.t) && cur.tg.len() == cur.n;
                     if !wf {
                         break;
